@@ -134,6 +134,7 @@ var gen7Targets = []string{
 	"bitmap.select32single",
 	"bitmap.indexSelectU64",
 	"bitmap.selectU64Indexed",
+	"bmtree.PathStr",
 }
 
 func init() {
